@@ -26,7 +26,8 @@ def worker(arg):
     rel_file = "/".join(["ws", "proj", "animals"] + NS[c["depth"]] + [fname])
     # the whole tree lives in a directory whose name differs from the root namespace's only by letter case (an ancestor that
     # a case-insensitive comparison would mistake for the root)
-    fs = {"Animals/" + rel_file: "@sealed\n", "Animals/ws/proj/plants/trees/Oak.1.0.dsdl": "@sealed\n", "Animals/other/.keep": ""}
+    body = "@sealed\n---\nuint8 r\n@sealed\n" if c["kind"] == "service" else "@sealed\n"
+    fs = {"Animals/" + rel_file: body, "Animals/ws/proj/plants/trees/Oak.1.0.dsdl": "@sealed\n", "Animals/other/.keep": ""}
     diff = []
     with dsdlio.Tree(fs, "c15") as tr:
         base = os.path.join(str(tr.root.resolve()), "Animals")
@@ -72,6 +73,18 @@ def worker(arg):
                         diff.append(("identity / back pointers", got, exp))
                     if (t.has_fixed_port_id != (ident["port"] >= 0)) or t.short_name != c["name"] or t.root_namespace != ident["components"][0]:
                         diff.append(("derived accessors", t.has_fixed_port_id, t.short_name, t.root_namespace))
+                    # the request / response part of a service: types of their own in the same file (Paths.tla, Parts)
+                    parts = [t.request_type, t.response_type] if isinstance(t, pydsdl.ServiceType) else []
+                    exp_parts = [(".".join(p["components"]), p["major"], p["minor"], None if p["port"] < 0 else p["port"], file_abs,
+                                  os.path.join(base, *p["root"])) for p in out["parts"]]
+                    got_parts = [(q.full_name, q.version.major, q.version.minor, q.fixed_port_id, str(q.source_file_path),
+                                  str(q.source_file_path_to_root)) for q in parts]
+                    if got_parts != exp_parts:
+                        diff.append(("identity / back pointers of the request and response part", got_parts, exp_parts))
+                    for q in parts:
+                        if not q.has_parent_service or q.has_fixed_port_id or q.root_namespace != ident["components"][0] \
+                                or q.full_namespace != t.full_name or q.deprecated != t.deprecated:
+                            diff.append(("derived accessors of a service part", q.full_name, q.has_parent_service, q.full_namespace))
             except pydsdl.InvalidDefinitionError as ex:
                 succeeded = False
                 if out["promised"]:
